@@ -71,12 +71,7 @@ def tuples (k : Nat) : Nat → List (List Nat)
   | 0 => [[]]
   | n + 1 => (tuples k n).flatMap fun t => (List.range k).map fun i => i :: t
 
-def genScope (tier : Tier) (o : Out) : IO Unit := do
-  let levels := if tier == .thorough then ["A", "A::B", "A::B::C"] else ["A", "A::B"]
-  let spellings :=
-    ["X", "B::X", "A::B::X", "A::X", "::A::X", "::A::B::X", "::X", "::B::X", "C::X"] ++
-    (if tier == .thorough then ["B::C::X", "A::B::C::X", "::A::B::C::X"] else [])
-  let refMods := ["A::B", "A::B::C", "A", "N"]
+def genScopeWith (tier : Tier) (o : Out) (fam : String) (levels spellings refMods : List String) : IO Unit := do
   for arr in tuples 6 levels.length do
     let defFiles := (levels.zip arr).zipIdx.filterMap fun ((m, k), li) => (xDef k "X" li).map fun d => mkFile m [d]
     for sp in spellings do
@@ -84,7 +79,21 @@ def genScope (tier : Tier) (o : Out) : IO Unit := do
         for rm in refMods do
           let user := mkFile rm (userDefs group (named sp))
           for p in orders tier (defFiles ++ [user]) do
-            emit o "scope" p
+            emit o fam p
+
+def genScope (tier : Tier) (o : Out) : IO Unit := do
+  let levels := if tier == .thorough then ["A", "A::B", "A::B::C"] else ["A", "A::B"]
+  let spellings :=
+    ["X", "B::X", "A::B::X", "A::X", "::A::X", "::A::B::X", "::X", "::B::X", "C::X"] ++
+    (if tier == .thorough then ["B::C::X", "A::B::C::X", "::A::B::C::X"] else [])
+  genScopeWith tier o "scope" levels spellings ["A::B", "A::B::C", "A", "N"]
+  -- nested modules that repeat the path of an enclosing module: a relative name that starts with the referencing module's own
+  -- path is still searched innermost-first (`A::X` written in `A` is `A::A::X` when that exists)
+  genScopeWith tier o "scope-repeat" (if tier == .thorough then ["A", "A::A", "A::A::A"] else ["A", "A::A"])
+    (["X", "A::X", "A::A::X", "::A::X", "::A::A::X", "::X"] ++ (if tier == .thorough then ["A::A::A::X", "::A::A::A::X"] else []))
+    ["A", "A::A", "N"]
+  genScopeWith tier o "scope-repeat2" ["A::B", "A::B::A::B"]
+    ["X", "A::B::X", "B::X", "A::B::A::B::X", "::A::B::X", "::A::B::A::B::X", "B::A::B::X"] ["A::B", "A::B::A::B", "A", "A::B::A"]
 
 /-- how a definition `name` living in module `to` is spelled from module `frm` (modules are `A` or `A::B`) -/
 def spellFrom (bare : Bool) (frm to name : String) : String :=
